@@ -76,6 +76,9 @@ type Script struct {
 	// of the odd frame's own result member. "" = the general rules.
 	Expect    string `json:"expect,omitempty"`
 	NoHandler bool   `json:"no_handler,omitempty"` // no notification handler is registered on the client (any kind)
+	// Typed is set by the typed-members family (typed.go): notif | srvreq | result | error. The probe is judged by
+	// judgeTyped (child.go); with a handler requested, handlers are registered for every notification method the family uses.
+	Typed string `json:"typed,omitempty"`
 }
 
 func (s *Script) label() string {
@@ -1054,6 +1057,11 @@ func scriptsFor(kind string, n int, rngFor func(label string) *rand.Rand, thorou
 	}
 	// the same-id family comes on top of the n scripts (its size is fixed by the tier, not by n)
 	for _, s := range sameIDScripts(kind, rngFor, thorough) {
+		s.Idx = len(out)
+		out = append(out, s)
+	}
+	// and so does the typed-members family
+	for _, s := range typedScripts(kind, rngFor, thorough) {
 		s.Idx = len(out)
 		out = append(out, s)
 	}
